@@ -4,6 +4,8 @@
 package main
 
 import (
+	"strconv"
+	"time"
 	"encoding/json"
 	"flag"
 	"fmt"
@@ -50,9 +52,26 @@ func main() {
 		defer o.Close()
 	}
 	ctx := h.NewCtx(id, *tier, *seed, o, *replays, h.LoadFindings(*findings))
+	emit := func() {
+		res := ctx.Result()
+		enc := json.NewEncoder(os.Stdout)
+		enc.SetIndent("", " ")
+		enc.Encode(res)
+	}
+	stall := 300 * time.Second
+	if *tier == "thorough" {
+		stall = 900 * time.Second
+	}
+	if v, err := strconv.Atoi(os.Getenv("VERIF_STALL_S")); err == nil && v > 0 {
+		stall = time.Duration(v) * time.Second
+	}
+	ctx.StartWatchdog(stall, func(report string) {
+		// every property here implies that the library's calls return: a stuck run is a failure of the scenario
+		// that was started after the last completed case
+		ctx.Fail("property", "terminates", report, "a library call has not returned (goroutine dump in the input field)", "every operation returns")
+		emit()
+		os.Exit(0)
+	})
 	f(ctx)
-	res := ctx.Result()
-	enc := json.NewEncoder(os.Stdout)
-	enc.SetIndent("", " ")
-	enc.Encode(res)
+	emit()
 }
